@@ -28,11 +28,9 @@ func (TrueSet) IsTrue() bool {
 }
 
 func (t TrueSet) Less(v Value) bool {
-	switch v.(type) {
-	case TrueSet, Number, Tuple, EmptySet:
-		return false
-	}
-	return true
+	// There is one true value; order against everything else by kind, like
+	// every other value does.
+	return t.Kind() < v.Kind()
 }
 
 func (t TrueSet) Negate() Value {
